@@ -84,8 +84,8 @@ def _run_once(exe, lines):
         for l in lines:
             f.write(l + "\n")
     env = dict(os.environ, OCAMLRUNPARAM="l=4G")
-    # 8 GB address-space limit per driver process: a case whose evaluation explodes (exponentially many outcomes) is dropped, not the machine
-    p = subprocess.run(["bash", "-c", "ulimit -s unlimited 2>/dev/null; ulimit -v 8388608 2>/dev/null; exec \"$0\" \"$1\" \"$2\"", exe, fin, fout],
+    # 4 GB address-space limit per driver process: a case whose evaluation explodes (exponentially many outcomes) is dropped, not the machine
+    p = subprocess.run(["bash", "-c", "ulimit -s unlimited 2>/dev/null; ulimit -v 4194304 2>/dev/null; exec \"$0\" \"$1\" \"$2\"", exe, fin, fout],
                        capture_output=True, text=True, env=env)
     res = {}
     if os.path.exists(fout):
